@@ -26,7 +26,7 @@ def descriptor_text(extents: list[str], *, cid: str = "fffffffe", parent_cid: st
     lines.append("")
     if comments:
         lines += ["# The Disk Data Base", "#DDB", ""]
-    for k, v in (ddb or {"ddb.virtualHWVersion": "4", "ddb.adapterType": "lsilogic"}).items():
+    for k, v in ({"ddb.virtualHWVersion": "4", "ddb.adapterType": "lsilogic"} if ddb is None else ddb).items():
         lines.append(f'{k} = "{v}"')
     return ("\r\n" if crlf else "\n").join(lines) + ("\r\n" if crlf else "\n")
 
